@@ -59,6 +59,39 @@ def c20_classify(inp, out):
     return ks
 
 
+def c18_classify(inp, out):
+    import json as _j
+    ks = []
+    try:
+        c = _j.loads(inp)
+        o = _j.loads(out)
+    except Exception:
+        return ["unparsable"]
+    ks.append("v%d" % c.get("v", 0))
+    ks.append("structured" if c.get("st") else "flat")
+    for k in ("rec", "alw", "nonsd"):
+        if c.get(k):
+            ks.append("opt:" + k)
+    if c.get("decoy"):
+        ks.append("opt:decoy")
+    ks.append("hash:" + c.get("hash", ""))
+    ks.append("hb:%d" % c.get("hb", 0))
+    ks.append("mode:" + c.get("mode", ""))
+    ks.append("tamper:" + str(o.get("tamper")))
+    ks.append("out:" + (o["out"] if isinstance(o.get("out"), str) else "claims"))
+    ks.append("disclosures:%d" % min(len(o.get("T") or []), 9))
+    return ks
+
+
+def c18_nontrivial(inp, out):
+    import json as _j
+    try:
+        o = _j.loads(out)
+    except Exception:
+        return False
+    return isinstance(o.get("out"), dict) and len(o.get("S") or []) >= 1 and len(o.get("T") or []) >= 2
+
+
 PROPS = {
     "C11": {
         "lean_files": ["AriesVerif/C11/Spec.lean", "AriesVerif/C11/Model.lean", "AriesVerif/C11/Props.lean",
@@ -141,5 +174,21 @@ PROPS = {
                          "generator's four filter kinds)", "unsigned JSON-LD credentials (proof check disabled on the verifier side)"],
         "assumptions": ["v1-style definitions with a schema uri matched by every generated credential (the verifier validates schemas by default)",
                         "limit_disclosure / subject_is_issuer / predicate filters not generated yet"],
+    },
+    "C18": {
+        "lean_files": ["AriesVerif/C18/Model.lean", "AriesVerif/C18/Flat.lean", "AriesVerif/C18/Props.lean",
+                       "AriesVerif/C18/Drv.lean", "AriesVerif/Base/Json.lean"],
+        "lake_targets": ["AriesVerif"],
+        "classify": c18_classify,
+        "nontrivial": c18_nontrivial,
+        "thorough_seeds": 2,
+        "rule": "generated claim trees (depth <= 3, objects / arrays / strings / ints / bools) x issuer options (SD-JWT v2 and v5, "
+                "structured, non-SD paths, recursive and always-include objects, decoys, sha-256/384/512) x presented subsets chosen by "
+                "content hash (all / none / subset) x tampering (forged, duplicated, altered disclosure) x holder binding (none, right, "
+                "wrong nonce / audience / key, required but missing); real issuer.New -> holder.CreatePresentation -> verifier.Parse; "
+                "non-trivial = an honest presentation of >= 1 of >= 2 disclosures was verified; distinct (input, outcome) pairs",
+        "trusted_base": ["SHA-2 and Ed25519 (ideal: digests are replaced by the index of the disclosure that hashes to them)",
+                         "go-jose / encoding/json parsing; json.Number values are normalised to JSON numbers (C18-F3)"],
+        "assumptions": ["claims without null members and without empty arrays / objects (C18-F1, C18-F2 record what happens otherwise)"],
     },
 }
